@@ -507,6 +507,10 @@ func ruleLookupTable(c *Ctx) {
 									written[s] = true
 								} else if call, ok := ix.Index.(*ast.CallExpr); ok && c.isPkgFunc(call, "strconv", "Itoa") {
 									usesItoa = true
+								} else if call, ok := ix.Index.(*ast.CallExpr); ok && c.isDecimalNameHelper(call) {
+									// a helper that yields strconv.Itoa of its argument, possibly from a table of
+									// names built with Itoa for exactly the indices it is consulted for
+									usesItoa = true
 								}
 							}
 						}
@@ -817,4 +821,189 @@ func (c *Ctx) multiSourceLookup(call *ast.CallExpr, recv, tok types.Object, form
 	})
 	c.saw(c.funcName(gfd))
 	return comps, good
+}
+
+// isDecimalNameHelper: the call is to a package function of one int parameter every return of which is
+// strconv.Itoa(param), or T[param] where T is a package-level array initialised by a function literal whose only
+// loop runs from 0 up to the constant K and stores Itoa(i) at index i, and the return is guarded by
+// uint(param) < K' (or 0 <= param && param < K') with K' <= K.
+func (c *Ctx) isDecimalNameHelper(call *ast.CallExpr) bool {
+	g, ok := c.callee(call).(*types.Func)
+	if !ok || g.Pkg() != c.Types || len(call.Args) != 1 {
+		return false
+	}
+	gfd := c.decl(g)
+	if gfd == nil || gfd.Body == nil {
+		return false
+	}
+	param := c.paramObj(gfd, 0)
+	if param == nil {
+		return false
+	}
+	isParam := func(e ast.Expr) bool {
+		id, ok := unparen(e).(*ast.Ident)
+		return ok && c.objOf(id) == param
+	}
+	n, all := 0, true
+	ast.Inspect(gfd.Body, func(nd ast.Node) bool {
+		if _, isLit := nd.(*ast.FuncLit); isLit {
+			return false
+		}
+		rs, ok := nd.(*ast.ReturnStmt)
+		if !ok || len(rs.Results) != 1 {
+			return true
+		}
+		n++
+		r := unparen(rs.Results[0])
+		if rc, isCall := r.(*ast.CallExpr); isCall && c.isPkgFunc(rc, "strconv", "Itoa") && len(rc.Args) == 1 && isParam(rc.Args[0]) {
+			return true
+		}
+		if ix, isIx := r.(*ast.IndexExpr); isIx && isParam(ix.Index) {
+			if tid, isId := unparen(ix.X).(*ast.Ident); isId {
+				if tv, isVar := c.objOf(tid).(*types.Var); isVar && tv.Parent() == c.Types.Scope() {
+					if k, okT := c.itoaTableBound(tv); okT && c.indexBelow(gfd, rs, ix.Index, k) {
+						return true
+					}
+				}
+			}
+		}
+		all = false
+		return true
+	})
+	return n > 0 && all
+}
+
+// itoaTableBound: the package-level array v is initialised by `func() (t [K]string) { for i := 0; i < K; i++ {
+// t[i] = strconv.Itoa(i) }; return t }()`: K.
+func (c *Ctx) itoaTableBound(v *types.Var) (int, bool) {
+	arr, isArr := v.Type().Underlying().(*types.Array)
+	if !isArr {
+		return 0, false
+	}
+	for _, f := range c.Files {
+		for _, d := range f.Decls {
+			gd, ok := d.(*ast.GenDecl)
+			if !ok {
+				continue
+			}
+			for _, sp := range gd.Specs {
+				vs, ok := sp.(*ast.ValueSpec)
+				if !ok {
+					continue
+				}
+				for i, nm := range vs.Names {
+					if c.objOf(nm) != types.Object(v) || i >= len(vs.Values) {
+						continue
+					}
+					call, isCall := unparen(vs.Values[i]).(*ast.CallExpr)
+					if !isCall || len(call.Args) != 0 {
+						return 0, false
+					}
+					lit, isLit := unparen(call.Fun).(*ast.FuncLit)
+					if !isLit {
+						return 0, false
+					}
+					bound, good, loops := 0, false, 0
+					ast.Inspect(lit.Body, func(nd ast.Node) bool {
+						fs, isFor := nd.(*ast.ForStmt)
+						if !isFor {
+							return true
+						}
+						loops++
+						init, okI := fs.Init.(*ast.AssignStmt)
+						cond, okC := fs.Cond.(*ast.BinaryExpr)
+						if !okI || !okC || len(init.Lhs) != 1 || len(init.Rhs) != 1 || cond.Op != token.LSS {
+							return true
+						}
+						iv, isId := init.Lhs[0].(*ast.Ident)
+						if !isId {
+							return true
+						}
+						if tv, has := c.Info.Types[init.Rhs[0]]; !has || tv.Value == nil || tv.Value.String() != "0" {
+							return true
+						}
+						kv, has := c.Info.Types[cond.Y]
+						if !has || kv.Value == nil {
+							return true
+						}
+						k, isInt := constInt(kv.Value.String())
+						if cid, isCid := unparen(cond.X).(*ast.Ident); !isInt || !isCid || c.objOf(cid) != c.objOf(iv) {
+							return true
+						}
+						// the body stores Itoa(i) at [i]
+						stores := false
+						ast.Inspect(fs.Body, func(m ast.Node) bool {
+							as, isAs := m.(*ast.AssignStmt)
+							if !isAs || len(as.Lhs) != 1 || len(as.Rhs) != 1 {
+								return true
+							}
+							ix, isIx := unparen(as.Lhs[0]).(*ast.IndexExpr)
+							rc, isRc := unparen(as.Rhs[0]).(*ast.CallExpr)
+							if !isIx || !isRc || !c.isPkgFunc(rc, "strconv", "Itoa") || len(rc.Args) != 1 {
+								return true
+							}
+							ii, ok1 := unparen(ix.Index).(*ast.Ident)
+							ai, ok2 := unparen(rc.Args[0]).(*ast.Ident)
+							if ok1 && ok2 && c.objOf(ii) == c.objOf(iv) && c.objOf(ai) == c.objOf(iv) {
+								stores = true
+							}
+							return true
+						})
+						if stores && int64(k) <= arr.Len() {
+							bound, good = k, true
+						}
+						return true
+					})
+					if good && loops == 1 {
+						return bound, true
+					}
+					return 0, false
+				}
+			}
+		}
+	}
+	return 0, false
+}
+
+// indexBelow: at node, the integer expression e is known to lie in [0, k): uint(e) < K' or e >= 0 && e < K' with K' <= k.
+func (c *Ctx) indexBelow(fd *ast.FuncDecl, node ast.Node, e ast.Expr, k int) bool {
+	want := exprString(unparen(e))
+	upper, lower := false, false
+	for _, cl := range c.literalsAt(fd, node) {
+		be, ok := unparen(cl.e).(*ast.BinaryExpr)
+		if !ok || cl.neg {
+			continue
+		}
+		kv, has := c.Info.Types[be.Y]
+		if !has || kv.Value == nil {
+			continue
+		}
+		bound, isInt := constInt(kv.Value.String())
+		if !isInt {
+			continue
+		}
+		x := unparen(be.X)
+		if conv, isConv := x.(*ast.CallExpr); isConv && c.isConversion(conv) && len(conv.Args) == 1 {
+			if b, isB := c.typeOf(conv).Underlying().(*types.Basic); isB && b.Info()&types.IsUnsigned != 0 && exprString(unparen(conv.Args[0])) == want {
+				if be.Op == token.LSS && bound <= k {
+					upper, lower = true, true
+				}
+			}
+			continue
+		}
+		if exprString(x) != want {
+			continue
+		}
+		switch be.Op {
+		case token.LSS:
+			if bound <= k {
+				upper = true
+			}
+		case token.GEQ:
+			if bound >= 0 {
+				lower = true
+			}
+		}
+	}
+	return upper && lower
 }
